@@ -50,9 +50,12 @@ def stepLine (st : St) (line : String) : St × String :=
     | some c, some ss =>
       if ok = "0" ∨ ok = "1" then
         let r := getCert st.cap (ok == "1") st.s c ss
+        -- for a generated certificate the model also predicts what the certificate carries (subject CN, SANs)
+        let cert (e : Entry) : String :=
+          if e.custom then "" else " " ++ showName (subjectCn e.cn) ++ " " ++ showList (e.sans.map showSan)
         let out := match r.2 with
-          | .hit e => showLab' e ++ " 0 " ++ tail r.1
-          | .fresh e => showLab' e ++ " 1 " ++ tail r.1
+          | .hit e => showLab' e ++ " 0 " ++ tail r.1 ++ cert e
+          | .fresh e => showLab' e ++ " 1 " ++ tail r.1 ++ cert e
           | .err => "err " ++ tail r.1
         ({ st with s := r.1 }, out)
       else (st, "bad-op")
